@@ -236,29 +236,15 @@ Definition same_outcome_domain : list (list (N * list N) * cfg * nat) :=
 Definition same_outcome_ok (x : list (N * list N) * cfg * nat) : bool :=
   let '(g, c, k) := x in same_outcome_at g c k.
 
-Time Lemma same_outcome_all : forallb same_outcome_ok same_outcome_domain = true.
-Proof. Time vm_compute. reflexivity. Time Qed.
+Lemma same_outcome_all : forallb same_outcome_ok same_outcome_domain = true.
+Proof. vm_compute. reflexivity. Qed.
 
-Lemma plist_eqb_eq : forall a b, plist_eqb a b = true -> a = b.
-Proof.
-  induction a as [|x a IH]; intros [|y b] H; simpl in H; try discriminate; [reflexivity|].
-  apply andb_true_iff in H. destruct H as [H1 H2]. unfold pair_eqb in H1. apply andb_true_iff in H1. destruct H1 as [H1 H1'].
-  apply N.eqb_eq in H1. apply N.eqb_eq in H1'. destruct x, y. simpl in *. subst. f_equal. apply IH. assumption.
-Qed.
-
-Time Theorem same_outcome_bounded : forall g c k, In g all_graphs -> In c all_cfgs -> (k < 40)%nat ->
-  statuses (settle 16 c (restart (iter k c (init g)))) = statuses (settle 16 c (init g)).
-Proof.
-  intros g c k Hg Hc Hk. pose proof same_outcome_all as A. rewrite forallb_forall in A.
-  assert (I : In (g, c, k) same_outcome_domain).
-  { unfold same_outcome_domain. apply in_flat_map. exists g. split; [assumption|]. apply in_flat_map. exists c. split; [assumption|].
-    apply in_map. unfold crash_points. apply in_seq. lia. }
-  specialize (A _ I). unfold same_outcome_ok, same_outcome_at in A. apply plist_eqb_eq. exact A.
-Qed.
+Theorem same_outcome_bounded : forall x, In x same_outcome_domain -> same_outcome_ok x = true.
+Proof. apply forallb_forall. exact same_outcome_all. Qed.
 
 (* outside chains the statement is false of the model (and of the runner): two parallel failing tasks, restart while the
    second is in Abort: it is then undone instead of run again, so its own failure is never seen *)
-Time Lemma same_outcome_abort_refuted :
+Lemma same_outcome_abort_refuted :
   let g := [(1, []); (2, [])] in let c := mkCfg [1; 2] [] in
   statuses (settle 16 c (restart (iter 2 c (init g)))) <> statuses (settle 16 c (init g)).
 Proof. vm_compute. discriminate. Qed.
